@@ -74,6 +74,12 @@ def run_optable(prop):
                                 "children are oracles that return an arbitrary type and name the state they leave after the state they were given")
         tobls, tfns = typeflowlemmas.obligations(S, tb)
         battery_of = {o.role: (typeflowlemmas.closure_battery if "closure-body" in o.role else typeflowlemmas.assignment_battery if "AssignVariant::type_info" in o.role else typeflowlemmas.battery) for o in tobls}
+        import envlemmas
+        eobls, efns = envlemmas.obligations(S)
+        for o in eobls:
+            battery_of[o.role] = envlemmas.battery
+        tobls, tfns = tobls + eobls, sorted(set(tfns) | set(efns))
+        ev.cov["bounds"].append("LocalEnv::apply_child_scope / merge: explicit maps with at most 2 bindings per side over 3 identifiers, every overlap shape; bindings arbitrary")
         if prop == "C02":
             # the infallible-division / short-circuit decisions of Op::type_info read operand constants in the state of evaluation
             import stateflowlemmas
